@@ -24,8 +24,8 @@ GEN_TIE = "ApdVerif.Props.GenTie"
 PROPS = {
     "C01": {
         "level": "proof",
-        "lean_modules": ["ApdVerif.Props.C01"],
-        "theorem_prefixes": ["C01_"],
+        "lean_modules": ["ApdVerif.Props.C01", "ApdVerif.Props.GenTieRound", "ApdVerif.Props.GenTieMisc"],
+        "theorem_prefixes": ["C01_", "GenTie_"],
         "streams": [
             {"stream": "arith", "ops": ARITH_OPS, "n": {"quick": 40000, "thorough": 600000}},
             {"stream": "arith", "ops": ARITH_OPS, "n": {"quick": 300, "thorough": 4000}, "args": ["-extreme"]},
@@ -36,8 +36,8 @@ PROPS = {
     },
     "C02": {
         "level": "proof",
-        "lean_modules": ["ApdVerif.Props.C02"],
-        "theorem_prefixes": ["C02_"],
+        "lean_modules": ["ApdVerif.Props.C02", "ApdVerif.Props.GenTieRound", "ApdVerif.Props.GenTieCond"],
+        "theorem_prefixes": ["C02_", "GenTie_"],
         "streams": [
             {"stream": "arith", "ops": ["add", "sub", "mul", "quo", "quoint", "rem", "round", "quantize", "rtie", "reduce"],
              "n": {"quick": 40000, "thorough": 600000}},
@@ -47,8 +47,8 @@ PROPS = {
     },
     "C07": {
         "level": "proof",
-        "lean_modules": ["ApdVerif.Props.C07"],
-        "theorem_prefixes": ["C07_"],
+        "lean_modules": ["ApdVerif.Props.C07", "ApdVerif.Props.GenTieRound", "ApdVerif.Props.GenTieMisc"],
+        "theorem_prefixes": ["C07_", "GenTie_"],
         "streams": [
             {"stream": "arith", "ops": ["add", "sub", "mul", "quo", "abs", "neg", "round", "rem", "reduce", "quantize", "quoint"],
              "n": {"quick": 40000, "thorough": 600000}},
@@ -58,7 +58,8 @@ PROPS = {
     },
     "C09": {
         "level": "proof",
-        "lean_modules": ["ApdVerif.Props.C09"],
+        "lean_modules": ["ApdVerif.Props.C09", "ApdVerif.Props.GenTieRound"],
+        "theorem_prefixes": ["C09_", "GenTie_"],
         "streams": [
             {"stream": "arith", "ops": ["quantize", "rtie", "rtiv", "ceil", "floor"], "n": {"quick": 40000, "thorough": 600000}},
         ],
@@ -67,7 +68,8 @@ PROPS = {
     },
     "C10": {
         "level": "proof",
-        "lean_modules": ["ApdVerif.Props.C10"],
+        "lean_modules": ["ApdVerif.Props.C10", "ApdVerif.Props.GenTieRound"],
+        "theorem_prefixes": ["C10_", "GenTie_"],
         "streams": [
             {"stream": "arith", "ops": ["quoint", "rem"], "n": {"quick": 40000, "thorough": 600000}},
         ],
@@ -79,7 +81,8 @@ PROPS = {
 PROPS.update({
     "C15": {
         "level": "proof",
-        "lean_modules": ["ApdVerif.Props.C15"],
+        "lean_modules": ["ApdVerif.Props.C15", "ApdVerif.Props.GenTieMisc"],
+        "theorem_prefixes": ["C15_", "GenTie_"],
         "streams": [{"stream": "order", "n": {"quick": 40000, "thorough": 800000}}],
         "projections": ["result"],
         "oracle_tags": ["C15"],
@@ -102,6 +105,15 @@ PROPS.update({
         "trusted_extra": ["the float expression int64(float64(bl)/digitsToBitsRatio) of NumDigits' estimate path is modelled as ndigits(2^bl)-1; the digits stream checks NumDigits itself at 2^k, 2^k-1, 10^j, 10^j-1 for every bit length it covers"],
     },
 })
+PROPS["C20"] = {
+    "level": "proof",
+    "lean_modules": ["ApdVerif.Props.C20", "ApdVerif.Props.C01", "ApdVerif.Props.GenTieRound"],
+    "theorem_prefixes": ["C20_", "GenTie_"],
+    "streams": [{"stream": "modes", "n": {"quick": 30000, "thorough": 500000}}],
+    "projections": ["modes", "rel"],
+    "oracle_tags": ["C20"],
+    "explanation": "theorems: on the specification every mode returns the RoundDown or RoundUp result, floor/ceiling are those by sign, modes coincide iff exact, down/up adjacent, mirror law, monotonicity; on the model Add/Mul commute and Sub = Add of the negation. C01 ties the operations to the specification. search: the relations are evaluated directly on implementation outputs of the same call under the eight modes and under sign/scale/order transformations (scaling law: checked, not proved)",
+}
 
 _known = None
 
